@@ -484,6 +484,22 @@ func (i *interpreter) concreteKey(k value) value {
 }
 
 func (i *interpreter) symLen(x value) value {
+	if i.path.concrete {
+		// concrete mode (translator validation): lengths of texts the engine does not materialise are only ever
+		// tested for emptiness by the code under test
+		switch s := x.(type) {
+		case opaqueStr:
+			return 10
+		case *blob:
+			if s.text != "" {
+				return len(s.text)
+			}
+			if n, ok := s.size.(int64); ok {
+				return int(n)
+			}
+			return 100
+		}
+	}
 	switch s := x.(type) {
 	case symStr:
 		r := i.resolveStr(s)
